@@ -260,6 +260,127 @@ fn pinned() -> Vec<(usize, u64)> {
     crate::props::c05::pinned()
 }
 
+// ---------------------------------------------------------------------------
+// reference keys selected for extreme features
+// ---------------------------------------------------------------------------
+//
+// A decoder that is slightly narrower than the reference's (a bound that is off by one, an extra
+// condition on the key) refuses only reference keys that sit on the edge of what the reference
+// generates: a coefficient of F or of the recomputed G equal to +-127, a coefficient of f or g at
+// the limit of its field, a public key that is not a unit, a public-key coefficient 0 or q-1. Such
+// keys are one in hundreds or thousands; the peer's key generator is cheap, so the check generates
+// thousands of reference key pairs (simulator-seeded, in parallel child processes), computes these
+// features with the harness's own codec and arithmetic, and runs the exchange on the extreme ones.
+
+pub const F_G127: u8 = 1;
+pub const F_F127: u8 = 2;
+pub const F_FG_LIMIT: u8 = 4;
+pub const F_NONUNIT: u8 = 8;
+pub const F_H_EDGE: u8 = 16;
+const FEATURE_NAMES: [(u8, &str); 5] = [(F_G127, "G_has_127"), (F_F127, "F_has_127"), (F_FG_LIMIT, "fg_at_field_limit"), (F_NONUNIT, "h_not_a_unit"), (F_H_EDGE, "h_has_0_or_q_minus_1")];
+
+fn features(n: usize, pk_b: &[u8], sk_b: &[u8]) -> u8 {
+    let p = codec::params(n);
+    let mut feat = 0u8;
+    let ntt = crate::reference::field::Ntt::new(n);
+    if let Ok(k) = codec::sk_decode(p, sk_b) {
+        if k.cf.iter().any(|c| c.abs() == 127) {
+            feat |= F_F127;
+        }
+        let lim = (1i64 << (p.fg_bits - 1)) - 1;
+        if k.f.iter().chain(k.g.iter()).any(|c| c.abs() == lim) {
+            feat |= F_FG_LIMIT;
+        }
+        // G = g F / f mod q, centred (|G| < q/2 for every key the reference generates)
+        if let Some(cg) = ntt.div(&ntt.mul(&k.g, &k.cf), &k.f) {
+            if cg.iter().any(|&c| crate::reference::field::centred(c).abs() == 127) {
+                feat |= F_G127;
+            }
+        }
+        if ntt.forward(&k.g).iter().any(|&x| x == 0) {
+            feat |= F_NONUNIT;
+        }
+    }
+    if let Ok(h) = codec::pk_decode(p, pk_b) {
+        if h.iter().any(|&c| c == 0 || c == crate::reference::field::Q - 1) {
+            feat |= F_H_EDGE;
+        }
+    }
+    feat
+}
+
+fn mine_seed(seed: u64, n: usize, i: u64) -> u64 {
+    crate::rng::hash_u64(report::run_seed(seed, "C16mine", n as u64), i)
+}
+
+/// (peer seed, features) of the extreme keys among `count` reference key pairs
+fn mine<P: Peer>(seed: u64, count: u64, w: usize) -> (Vec<(u64, u8)>, u64) {
+    const CHUNK: u64 = 50;
+    let items: Vec<u64> = (0..(count + CHUNK - 1) / CHUNK).collect();
+    let job = |c: u64| -> Vec<u8> {
+        let mut out = Vec::new();
+        for i in c * CHUNK..((c + 1) * CHUNK).min(count) {
+            let ps = mine_seed(seed, P::N, i);
+            let (pk, sk) = P::keypair(ps);
+            let f = features(P::N, &pk, &sk);
+            if f != 0 {
+                out.extend_from_slice(&ps.to_le_bytes());
+                out.push(f);
+            }
+        }
+        out
+    };
+    let raw = crate::isolate::fork_map(&items, w, None, &job);
+    let mut v = Vec::new();
+    let mut done = 0u64;
+    for c in &items {
+        if let Some(Ok(b)) = raw.get(c) {
+            done += CHUNK.min(count - c * CHUNK);
+            for e in b.chunks_exact(9) {
+                v.push((u64::from_le_bytes(e[..8].try_into().unwrap()), e[8]));
+            }
+        }
+    }
+    (v, done)
+}
+
+/// up to `per` keys per feature (rare features first)
+fn select_mined(found: &[(u64, u8)], per: usize) -> Vec<(u64, u8)> {
+    let mut out: Vec<(u64, u8)> = Vec::new();
+    for (bit, _) in FEATURE_NAMES.iter() {
+        let mut k = 0;
+        for (s, f) in found {
+            if f & bit != 0 && k < per {
+                k += 1;
+                if !out.iter().any(|(t, _)| t == s) {
+                    out.push((*s, *f));
+                }
+            }
+        }
+    }
+    out
+}
+
+fn mined_run(seed: u64, n: usize, idx: u64, peer_seed: u64, feat: u8) -> RunOutcome {
+    let mut rng = Prng::new(report::run_seed(seed, "C16mined", (n as u64) << 32 | idx));
+    let plan = Plan { n, our_seed: rng.seed32(), peer_seed, msgs: (0..3).map(|_| world::message(&mut rng)).collect(), stream: rng.next_u64() };
+    let (class, st) = execute_dyn(&plan);
+    let mut out = RunOutcome::default();
+    out.stats = st;
+    out.stats.inc("runs");
+    out.stats.inc("runs.selected_reference_keys");
+    for (bit, name) in FEATURE_NAMES.iter() {
+        if feat & bit != 0 {
+            out.stats.inc(&format!("selected_reference_key.{}.{}", n, name));
+        }
+    }
+    if let Some((class, detail)) = class {
+        let m = minimise(&plan, &class);
+        out.violations.push(Violation { property: PROP, class, detail: format!("{} (reference key selected for features {:#04x})", detail, feat), replay: m.to_json(), run: (1 << 41) + ((n as u64) << 20) + idx });
+    }
+    out
+}
+
 fn sizes(tier: Tier) -> (u64, u64, usize) {
     match tier {
         Tier::Quick => (48u64, 12u64, 60usize),
@@ -324,7 +445,28 @@ pub fn check(tier: Tier, seed: u64) -> i32 {
     let (r512, r1024, _nmsg) = sizes(tier);
     let out = report::parallel_runs(r512 + r1024 + pinned().len() as u64, w, |run| dispatch(tier, seed, run));
     rep.absorb(out);
-    rep.rule = "a case is one signature exchange: for a falcon-rust key pair (from a fresh seed, or from one of the pinned seeds whose key generation takes a rare branch) and a reference key pair (PQClean keygen with simulator-seeded randombytes), each message is signed in all four (signer, key-origin) combinations, with keys crossing as bytes, and every signature is checked by both verifiers after re-framing (header 0x50|logn <-> 0x30|logn, zero padding stripped / added); before that, key bytes are imported and re-exported on this side and the public key is re-derived from the imported secret key; all exchanges are non-trivial; distinct = distinct signature bytes".into();
+    // reference keys selected for extreme features
+    {
+        let (c512, c1024, per) = if tier == Tier::Quick { (8000u64, 3000u64, 3usize) } else { (60000, 24000, 12) };
+        let t0 = std::time::Instant::now();
+        let (f512, d512) = mine::<Pq512>(seed, c512, w);
+        let (f1024, d1024) = mine::<Pq1024>(seed, c1024, w);
+        rep.stats.add("reference_keypairs_generated_for_selection", d512 + d1024);
+        rep.extra.insert("selection_wall_s".into(), json!((t0.elapsed().as_secs_f64() * 10.0).round() / 10.0));
+        let mut jobs: Vec<(usize, u64, u8)> = Vec::new();
+        for (s, f) in select_mined(&f512, per) {
+            jobs.push((512, s, f));
+        }
+        for (s, f) in select_mined(&f1024, per) {
+            jobs.push((1024, s, f));
+        }
+        let out = report::parallel_runs(jobs.len() as u64, w, |i| {
+            let (n, s, f) = jobs[i as usize];
+            mined_run(seed, n, i, s, f)
+        });
+        rep.absorb(out);
+    }
+    rep.rule = "a case is one signature exchange: for a falcon-rust key pair (from a fresh seed, or from one of the pinned seeds whose key generation takes a rare branch) and a reference key pair (PQClean keygen with simulator-seeded randombytes; either the next one, or one selected among 8000 + 3000 (thorough 60000 + 24000) for an extreme feature: a coefficient +-127 in F or in the recomputed G, a coefficient of f or g at its field limit, a public key that is not a unit, a public-key coefficient 0 or q-1), each message is signed in all four (signer, key-origin) combinations, with keys crossing as bytes, and every signature is checked by both verifiers after re-framing (header 0x50|logn <-> 0x30|logn, zero padding stripped / added); before that, key bytes are imported and re-exported on this side and the public key is re-derived from the imported secret key; all exchanges are non-trivial; distinct = distinct signature bytes".into();
     rep.assumptions = vec![
         "PQClean (pqcrypto-falcon 0.3.0) is the reference on honest traffic; no faults are injected here (a damaged exchange promises nothing)".into(),
         "reference signatures whose compressed part exceeds this library's fixed frame cannot be re-framed and are counted as skipped".into(),
